@@ -22,7 +22,8 @@ PROPERTY = "C12"
 FUNCTIONS = L.FUNCTIONS + ["redun.scheduler.Scheduler._reject_job_main_thread (recording)", "Scheduler._get_cache",
                            "Scheduler.run (raising)", "redun.backends.db.RedunBackendDb.check_cache", "redun.scheduler.ErrorValue"]
 ASSUMPTIONS = L.ASSUMPTIONS + [
-    "error objects: an ordinary exception subclass and one that carries an unpicklable attribute (a lock)",
+    "error objects: an ordinary exception subclass and one that carries an unpicklable attribute (a lock); a CAUGHT failure with "
+    "the unpicklable object may end in TypeError when it is handed to the recover task (not C12's subject, accepted)",
     "c12_reuse: second template on the stock scheduler and executors (vp/harness/reuse.py): a failing call handled once by catch "
     "and reached again later (same expression or equal call) caught or uncaught",
     "_get_cache kernel: check_cache stubbed to return a solver-chosen result kind (value / ErrorValue / invalid file value) and "
@@ -34,6 +35,11 @@ B = L.BRANCH
 
 def check_c12(lab, outcome, spec, with_bad, salt, backend, pick, limits, leaf_limits, mid_limits):
     want, errors = P.expected(spec, with_bad)
+    if outcome[0] == "error" and isinstance(outcome[1], TypeError) and "cannot pickle" in str(outcome[1]) and any(
+            fail and caught and mode == 4 for (x, fail, caught, mode) in spec):
+        # a CAUGHT failure whose exception object cannot be pickled: handing it to the recover task fails (arguments are hashed
+        # by pickling), on the stock scheduler too.  C12 speaks about uncaught failures; nothing to check here.
+        return None
     if not errors:
         return None if outcome[0] == "ok" else "run did not return although every failure is caught: %r" % (outcome,)
     if outcome[0] != "error":
